@@ -4,7 +4,7 @@ From Coq Require Import List NArith Bool Arith Lia Sorted.
 From Scion Require Import Lib.Check Model.Segment Model.CombSpec Model.Combinator.
 From Scion Require Import Proofs.CombinatorGraph Proofs.CombinatorRender Proofs.CombinatorFilter
   Proofs.CombinatorPaths Proofs.CombinatorIfs Proofs.CombSpec Proofs.CombinatorSpec
-  Proofs.CombinatorSound Proofs.CombinatorComplete Proofs.CombinatorMain.
+  Proofs.CombinatorSound Proofs.CombinatorComplete Proofs.CombinatorMain Proofs.CombinatorExact.
 Import ListNotations.
 Import Segment Combinator.
 Local Open Scope N_scope.
@@ -137,6 +137,91 @@ Proof.
   rewrite (fold_min_map (fun h => exp_ms (h_exp h)) snd). reflexivity.
 Qed.
 
+(** ---- the MTU recomputed from the input segments ---- *)
+Lemma in_product (ts : list (list N)) : forall cands,
+  Forall2 (fun t cs => In t cs) ts cands ->
+  In (concat ts) (fold_right (fun cs acc => flat_map (fun t => map (app t) acc) cs) [[]] cands).
+Proof.
+  induction ts as [|t ts IH]; intros cands H; inversion H; subst; cbn [fold_right concat].
+  - now left.
+  - apply in_flat_map. exists t. split; [assumption|]. apply in_map. now apply IH.
+Qed.
+
+Lemma explain_edge e :
+  edge_good e ->
+  exists hs, explain (is_seg (e_seg e)) (e_sc e) (e_peer e) = Some (hs, edge_mtu_terms e) /\
+             hs = map snd (if is_down e then edge_hops e else rev (edge_hops e)).
+Proof.
+  intros Hg. destruct (edge_slice_exact e Hg) as [c [rest [hc [Hs [Hh [Ho [_ Hm]]]]]]].
+  cbn [edge_slice sl_hops] in Ho. unfold explain. rewrite Hs.
+  assert (Hmap : map snd (if is_down e then edge_hops e else rev (edge_hops e)) = hc :: map ae_hop rest).
+  { rewrite Ho. cbn [map snd]. now rewrite map_map. }
+  rewrite Hmap, Hm. unfold cut_mtus.
+  destruct Hh as [[Hp ->]|[Hp [p [Hk ->]]]].
+  - rewrite Hp. eexists. split; reflexivity.
+  - destruct (e_peer e) as [|k] eqn:EP; [contradiction|]. replace (S k - 1)%nat with k in Hk by lia.
+    rewrite Hk. eexists. split; reflexivity.
+Qed.
+
+Lemma in_cuts_of e :
+  edge_good e -> ety e <> CoreT \/ (e_sc e = O /\ e_peer e = O) ->
+  In (e_sc e, e_peer e) (cuts_of (is_seg (e_seg e)) (segtype_eqb (ety e) CoreT)).
+Proof.
+  intros [c [Hc Hp]] H. unfold cuts_of. destruct (segtype_eqb (ety e) CoreT) eqn:T.
+  - apply segtype_eqb_eq in T. destruct H as [H|[-> ->]]; [contradiction | now left].
+  - apply in_flat_map. exists (e_sc e, c). split; [now apply in_enum|]. cbn [fst snd].
+    apply in_map. apply in_seq. split; [lia|]. cbn. unfold peer_ok in Hp.
+    destruct Hp as [->|[p Hp]]; [lia|].
+    assert (e_peer e - 1 < length (ae_peers c))%nat by (apply nth_error_Some; congruence). lia.
+Qed.
+
+Lemma slice_cand_edge ups cores downs e :
+  edge_good e -> from_segs (insegs ups cores downs) e ->
+  In (edge_mtu_terms e)
+     (slice_mtu_cands (segs_of ups) (segs_of cores) (segs_of downs) (sl_info (edge_slice e))
+                      (map snd (sl_hops (edge_slice e)))).
+Proof.
+  intros Hg [s [Hs Ht]]. pose proof (tuple_seg _ _ Ht) as Es.
+  pose proof (insegs_seg_in _ _ _ _ Hs) as Hrole. rewrite <- Es in Hrole. fold (ety e) in Hrole.
+  destruct (explain_edge e Hg) as [hs [Hex Hhs]].
+  assert (Hcore : ety e <> CoreT \/ (e_sc e = O /\ e_peer e = O)).
+  { inversion Ht as [T | idx a T Ha Hn | idx a k p T Ha Hp]; subst e.
+    - right. split; reflexivity.
+    - left. unfold ety. now rewrite mk_tuple_seg.
+    - left. unfold ety. now rewrite mk_tuple_seg. }
+  pose proof (in_cuts_of e Hg Hcore) as Hcut.
+  assert (Hseg : forall core, core = segtype_eqb (ety e) CoreT ->
+     In (edge_mtu_terms e)
+        (seg_mtu_cands (sl_info (edge_slice e))
+           (if is_down e then map snd (edge_hops e) else rev (map snd (edge_hops e))) core (is_seg (e_seg e)))).
+  { intros core ->. unfold seg_mtu_cands. cbn [edge_slice sl_info edge_info i_ts i_peer].
+    rewrite N.eqb_refl. apply in_flat_map. exists (e_sc e, e_peer e). split; [exact Hcut|].
+    cbn [fst snd]. rewrite Hex.
+    assert (E : hs = if is_down e then map snd (edge_hops e) else rev (map snd (edge_hops e))).
+    { rewrite Hhs. destruct (is_down e); [reflexivity | now rewrite map_rev]. }
+    rewrite E, (list_eqb_refl hopf_eqb) by apply hopf_eqb_refl. rewrite Bool.eqb_reflx. now left. }
+  unfold slice_mtu_cands. cbn [edge_slice sl_info sl_hops edge_info i_consdir].
+  unfold is_down in *. fold (ety e) in *. destruct (ety e) eqn:Ty; cbn [segtype_eqb] in *.
+  - apply in_or_app. left. apply in_flat_map. exists (is_seg (e_seg e)). split; [exact Hrole|]. now apply Hseg.
+  - apply in_or_app. right. apply in_flat_map. exists (is_seg (e_seg e)). split; [exact Hrole|]. now apply Hseg.
+  - apply in_flat_map. exists (is_seg (e_seg e)). split; [exact Hrole|]. now apply Hseg.
+Qed.
+
+Lemma direct_mtu_path ups cores downs es :
+  (length es <= 3)%nat -> Forall edge_good es -> Forall (from_segs (insegs ups cores downs)) es ->
+  direct_mtu_ok (segs_of ups) (segs_of cores) (segs_of downs) (obs_of (path_of es)) = true.
+Proof.
+  intros Hl Hg Hf. rewrite obs_of_path_of. unfold direct_mtu_ok. cbn [o_infos o_seglen o_hops o_mtu].
+  set (sls := map edge_slice es). assert (Hs : (length sls <= 3)%nat) by (unfold sls; now rewrite map_length).
+  rewrite map_length. rewrite <- (map_length lenN sls) at 1. rewrite firstn_pad3 by now rewrite map_length.
+  rewrite split_hops_slices. apply existsb_exists. exists (concat (map edge_mtu_terms es)). split.
+  - apply in_product. unfold sls. clear - Hg Hf.
+    induction es as [|e es IH]; cbn; constructor.
+    + inversion Hg; inversion Hf; subst. now apply slice_cand_edge.
+    + inversion Hg; inversion Hf; subst. now apply IH.
+  - apply N.eqb_eq. rewrite sol_mtu_fold. now rewrite flat_map_concat_map.
+Qed.
+
 (** ---- C28 ---- *)
 Theorem ok28_model src dst ups cores downs fa ps :
   combine src dst ups cores downs fa = Done ps ->
@@ -159,6 +244,11 @@ Proof.
   - apply forallb_forall. intros o Ho. apply in_map_iff in Ho as [p [<- Hp]].
     destruct (Hpaths p Hp) as [es [Hch ->]]. apply N.eqb_eq. symmetry. apply direct_exp_path.
     pose proof (types_ok_length _ _ (chain_types _ _ _ _ _ Hch)). cbn in H. lia.
+  - apply forallb_forall. intros o Ho. apply in_map_iff in Ho as [p [<- Hp]].
+    destruct (Hpaths p Hp) as [es [Hch ->]]. apply direct_mtu_path.
+    + pose proof (types_ok_length _ _ (chain_types _ _ _ _ _ Hch)). cbn in H. lia.
+    + eapply chain_good; eauto.
+    + eapply chain_from_segs; eauto.
   - apply forallb_forall. intros o Ho. apply in_map_iff in Ho as [p [<- Hp]]. apply negb_true_iff. now apply Hsub.
   - apply sorted_w_of. eapply combine_sorted; eauto.
   - destruct fa; [reflexivity|]. cbn [orb]. destruct (combine_dedup _ _ _ _ _ _ Hc) as [Hnd Hmax].
